@@ -42,19 +42,28 @@ def wrap_rules(facts, rep):
     # Read for ZipFile delegates to the decoding reader
     rd = facts.method(r"^read::ZipFile<", "read", r"std::io::Read")
     cs = [t["callee"] for _, t in rd.calls()]
-    good = any(c.endswith("::get_reader") for c in cs) and not any(c.endswith("get_raw_reader") for c in cs)
+    from engine.query import lazy_ctor
+    gr = lazy_ctor(facts)
+    inlined = gr.path == rd.path        # get_reader's body lives in read() itself
+    good = (inlined or any(c.endswith("::get_reader") for c in cs)) and not any(c.endswith("get_raw_reader") for c in cs)
     # ... and is nothing but that delegation: no path may answer a read without asking the checksum-verifying reader
     prd = paths(rd)
     for p_ in prd:
         r_ = p_["ret"]
         real = [a for a, v in p_["decisions"] if a != "#iter"]
+        if inlined:
+            # the only decision is "is the reader still to be built"; the answer comes from self.reader.read(buf)
+            real = [a for a in real if not re.search(r"^discr\(self\.reader\)$", a)]
+            good = good and not real and r_ is not None and r_[0] == "call" and r_[1].endswith("io::Read::read") and \
+                all((a_[0] == "field" and a_[2] == "reader" and a_[1][0] == "arg") or (a_[0] == "call" and a_[1].endswith("read::make_reader")) for a_ in alts(r_[2][0])) and \
+                r_[2][1] == ("arg", 2, "buf")
+            continue
         good = good and not real and r_ is not None and r_[0] == "call" and r_[1].endswith("io::Read::read") and \
             any(x[0] == "call" and x[1].endswith("::get_reader") for x in walk(r_[2][0])) and r_[2][1] == ("arg", 2, "buf")
     good = good and len(prd) >= 1
     ok &= rep.check(good, rule, "ZipFile::read->get_reader", where(rd, rd.span), "ZipFile::read uses the decoding reader",
                     "ZipFile::read no longer goes through get_reader() (calls %s)" % [c.split("::")[-1] for c in cs])
     # both constructors of a decoding ZipFile use make_reader
-    gr = facts.one(r"^read::ZipFile::<'a>::get_reader$")
     st = facts.one(r"^read::read_zipfile_from_stream$")
     for f in (gr, st):
         good = bool(calls_matching(f, r"^read::make_reader$"))
